@@ -586,8 +586,8 @@ def _sh_work(task):
 
 def main(tier):
     r = common.Run("C16", "exploration", tier)
-    # thorough: length 4 from the five initial shapes with two equal axes, length 3 from the other twenty
-    sh_tasks = [((a, b), 4 if (tier != "quick" and a == b) else 3) for a in range(len(SH_DIMS)) for b in range(len(SH_DIMS))]
+    # length 3 from all 25 initial shapes in both tiers (length 4 costs about half an hour per initial shape)
+    sh_tasks = [((a, b), 3) for a in range(len(SH_DIMS)) for b in range(len(SH_DIMS))]
     sh_res = common.pmap(_sh_work, sh_tasks, chunksize=1)
     sh_runs = sum(a for a, _ in sh_res)
     for _, f in sh_res:
